@@ -296,6 +296,7 @@ def norm_closure_underscore(text, m):
 
 _N13_ZIP_ALL = re.compile(r"(?<![\w.])(\w+)(\s*\.iter\(\)\s*\.zip\()(\w+)(\.iter\(\)\)\s*\.all\()(?=\|)")
 _N13_ALL = re.compile(r"(?<![\w.])(\w+)(\s*\.iter\(\)\s*\.all\()(?=\|)")
+_N13_ANY = re.compile(r"(?<![\w.])(\w+)(\s*\.iter\(\)\s*\.any\()(?=\|)")
 _N13_ZIP_MAP = re.compile(r"(?<![\w.])(\w+\s*\.iter\(\))(\s*\.zip\()(\w+\s*\.iter\(\))(\)\s*\.map\()(?=\|)")
 _N13_MAP = re.compile(r"(?<![\w.])(\w+\s*\.iter\(\))(\s*\.map\()(?=\|)")
 _N13_POSITION = re.compile(r"(?<![\w.])(\w+(?:\[[^\]\n]*\])?)(\s*\.iter\(\)\s*\.position\()(?=\|)")
@@ -314,6 +315,7 @@ def norm_iter_chains(text, m, body_open, body_close):
     the closure and its body stay verbatim and in place; only the combinator names move into the helper:
         A.iter().zip(B.iter()).all(C)            ->  verif_zip_all(&A, &B, C)
         A.iter().all(C)                          ->  verif_all(&A, C)
+        A.iter().any(C)                          ->  verif_any(&A, C)
         A.iter().zip(B.iter()).map(C).collect()  ->  verif_zip_map_collect(A.iter(), B.iter(), C)
         A.iter().map(C).collect()                ->  verif_map_collect(A.iter(), C)
         A.iter().map(C).sum()                    ->  verif_map_sum(A.iter(), C)
@@ -341,6 +343,9 @@ def norm_iter_chains(text, m, body_open, body_close):
         edits.append(Edit(mm.start(4), text[mm.start(4) : mm.end(4)], ", ", "norm:N13"))
     for mm in _N13_ALL.finditer(m, body_open, body_close):
         edits.append(Edit(mm.start(1), "", "verif_all(&", "norm:N13"))
+        edits.append(Edit(mm.start(2), text[mm.start(2) : mm.end(2)], ", ", "norm:N13"))
+    for mm in _N13_ANY.finditer(m, body_open, body_close):
+        edits.append(Edit(mm.start(1), "", "verif_any(&", "norm:N13"))
         edits.append(Edit(mm.start(2), text[mm.start(2) : mm.end(2)], ", ", "norm:N13"))
     for mm in _N13_ZIP_MAP.finditer(m, body_open, body_close):
         c = closure_at(mm.end())
